@@ -8,9 +8,14 @@ import (
 // Parse pares string to struct Endpoint, like tcp -h 10.219.139.142 -p 19386 -t 60000
 func Parse(endpoint string) Endpoint {
 	// tcp -h 10.219.139.142 -p 19386 -t 60000
+	// the protocol is the first word; white space in front of it (as after the ':' of an address
+	// list) is no part of it
 	proto := endpoint
-	if len(endpoint) > 3 {
-		proto = endpoint[0:3]
+	if words := strings.Fields(endpoint); len(words) > 0 {
+		proto = words[0]
+	}
+	if len(proto) > 3 {
+		proto = proto[0:3]
 	}
 	pFlag := flag.NewFlagSet(proto, flag.ContinueOnError)
 	var host, bind string
